@@ -74,7 +74,7 @@ def responder_worker(analysis: Analysis, spec) -> dict:
         for i, e in enumerate(s.events):
             if e.kind == "call" and e.name in ("binascii.unhexlify", "struct.unpack"):
                 parse_idx = i if parse_idx is None else parse_idx
-            if e.kind == "catch" and e.func == qual:
+            if e.kind == "catch" and e.func.startswith("ota:") and first_mut is None:
                 parse_failed = True
             if e.kind == "dictpop" and isinstance(e.recv, V):
                 nm = store_name(e.recv.key())
@@ -128,23 +128,15 @@ def reboot_writers(analysis: Analysis, res: RuleResult) -> None:
                         n += 1
                         val = node.value
                         if isinstance(val, ast.Constant) and val.value is True:
-                            ok = fn == "ota:OTAFirmware.make_update"
+                            ok = common.owned_by(analysis, fn, {"ota:OTAFirmware.make_update"})
                             res.add("C10-R3", f"{fn} / reboot flag set", ok, common.where(analysis, mod, node), "set by the update call" if ok else "the reboot flag is set outside the update call")
                         elif isinstance(val, ast.Constant) and val.value is False:
-                            ok = fn in ("handler:handle_presentation", "sensor:Sensor.__init__", "sensor:Sensor.__setstate__")
+                            ok = common.owned_by(analysis, fn, {"handler:handle_presentation", "sensor:Sensor.__init__", "sensor:Sensor.__setstate__"})
                             res.add("C10-R3", f"{fn} / reboot flag cleared", ok, common.where(analysis, mod, node), "cleared by node presentation / constructors" if ok else "the reboot flag is cleared by something other than the node presenting itself again")
                         else:
                             res.add("C10-R3", f"{fn} / reboot flag assigned a computed value", False, common.where(analysis, mod, node), unparse(node))
     if n < 2:
         raise AnalysisError(f"C10-R3: only {n} writers of the reboot flag found")
-    info = analysis.p.func("handler:handle_presentation")
-    # cleared in the node branch (child 255)
-    ok = False
-    for node in ast.walk(info.node):
-        if isinstance(node, ast.If) and "SYSTEM_CHILD_ID" in unparse(node.test) or isinstance(node, ast.If) and "255" in unparse(node.test):
-            if any(isinstance(s, ast.Assign) and unparse(s.targets[0]).endswith(".reboot") for s in ast.walk(node)):
-                ok = True
-    res.add("C10-R3", "handler:handle_presentation / reboot flag cleared when the node presents itself", ok, common.where(analysis, info, info.node), "in the node-presentation branch")
 
 
 def run(analysis: Analysis, tier: str) -> RuleResult:
@@ -217,15 +209,26 @@ def run(analysis: Analysis, tier: str) -> RuleResult:
                 for t in node.targets:
                     if isinstance(t, ast.Subscript) and isinstance(t.value, ast.Attribute) and t.value.attr == "requested":
                         fn = common.func_of_node(analysis, mod, node)
-                        res.add("C10-R1", f"{fn} / store into `requested`", fn == "ota:OTAFirmware.make_update", common.where(analysis, mod, node), "only the update call schedules nodes")
+                        res.add("C10-R1", f"{fn} / store into `requested`", common.owned_by(analysis, fn, {"ota:OTAFirmware.make_update"}), common.where(analysis, mod, node), "only the update call schedules nodes")
     reboot_writers(analysis, res)
     # R5 from handler paths
     specs = [(v, "serial", "sync") for v in analysis.versions]
     n = 0
+    n_reboot = n_pres = 0
     for rs in common.pmap(analysis, pathsum.logic_records, specs):
         for r in rs:
             if r["kind"] != "val":
                 continue
+            for m in r["muts"]:
+                if m["cat"] == "reboot":
+                    n_reboot += 1
+                    node_pres = r["type"] == "presentation" and any(x["cat"] == "attr-store" and x["desc"].endswith("_protocol_version") for x in r["muts"])
+                    okb = m["val"] == "const:False" and node_pres
+                    res.add("C10-R3", "handler paths / the reboot flag is cleared exactly when the node presents itself again", okb, f"{m['func']}:{m['line']}", f"reboot = {m['val']} while handling {r['type']}/{r['sub']}", r["witness"] if not okb else None, context=r["ctx"])
+            if r["type"] == "presentation" and any(x["cat"] == "attr-store" and x["desc"].endswith("_protocol_version") for x in r["muts"]):
+                n_pres += 1
+                cleared = any(m["cat"] == "reboot" and m["val"] == "const:False" for m in r["muts"])
+                res.add("C10-R3", "handler paths / a node presentation clears the reboot flag", cleared, "mysensors/handler.py", "reboot = False on the node-presentation path", r["witness"] if not cleared else None, context=r["ctx"])
             if any(c.startswith("ota:OTAFirmware.respond_fw") for c in r["calls"]):
                 n += 1
                 known = any(f.startswith("in:") and f.endswith("@GW.sensors") for f in r["final_facts"])
@@ -234,6 +237,8 @@ def run(analysis: Analysis, tier: str) -> RuleResult:
                 res.add("C10-R5", "firmware responders are reached only from stream messages", okt, "mysensors/handler.py", f"reached while handling {r['type']}", context=r["ctx"])
     if n < 10:
         raise AnalysisError(f"C10-R5: only {n} responder paths found in the handler analysis")
+    if n_pres < 5:
+        raise AnalysisError(f"C10-R3: only {n_pres} node-presentation paths found")
     res.units = {"responder_paths": n, "source_digest": analysis.p.digest()}
     res.not_decided = ["conformance of all interleavings to a reference session automaton", "block index range"]
     res.trusted = ["sa/extmodel.py dict.pop model"]
